@@ -33,7 +33,7 @@ def run_one(m):
 
 def main():
     args = [a for a in sys.argv[1:] if not a.startswith("--")]
-    jobs = 4
+    jobs = int(os.environ.get("SELFTEST_JOBS", "2"))
     muts = json.load(open(os.path.join(ROOT, "selftest", "mutants.json")))
     if args:
         muts = [m for m in muts if m["property"] in args or m["id"] in args]
